@@ -100,6 +100,19 @@ func c16Doc(w *W, harness string, text []byte, nd bool) {
 		} else if s2 := snapshot(pj2); s2 != base {
 			w.Violate(Violation{Harness: harness, Fingerprint: "C16/nocopy-differs", What: fmt.Sprintf("no-copy mode (input intact) exposes %s, copy mode %s", clip(s2), clip(base)), Case: append([]byte(nil), text...), Config: cfg.String(), Args: fmt.Sprint(nd)})
 		}
+		// default options on an object that was last used WITHOUT copying: still decoupled
+		if err2 == nil && p2 == "" {
+			in3 := append([]byte(nil), text...)
+			pj3, err3, p3 := doParseDefault(avx, in3, pj2, nd)
+			if err3 != nil || p3 != "" {
+				w.Violate(Violation{Harness: harness, Fingerprint: "C16/default-after-nocopy-outcome", What: fmt.Sprint("default-option parse reusing a no-copy result failed: ", err3, p3), Case: append([]byte(nil), text...), Config: cfg.String(), Args: fmt.Sprint(nd)})
+			} else {
+				scribble(in3, text, 1)
+				if s3 := snapshot(pj3); s3 != base {
+					w.Violate(Violation{Harness: harness, Fingerprint: "C16/default-after-nocopy-coupled", What: fmt.Sprintf("Parse with default options (copying) on an object previously used without copying: after overwriting the input the result reads %s, expected %s", clip(s3), clip(base)), Case: append([]byte(nil), text...), Config: cfg.String(), Args: fmt.Sprint(nd)})
+				}
+			}
+		}
 		for k := range scribbleNames {
 			scribble(in, text, k)
 			if s := snapshot(pj); s != base {
@@ -270,7 +283,7 @@ func c16Body(w *W) {
 		}
 		c16Doc(w, "C16-"+name, text, false)
 	})
-	kinds := []string{`\n`, `\"`, `\\`, `A`, `é`, `😀`, "é", "😀", ""}
+	kinds := []string{`\n`, `\"`, `\\`, `\u0041`, `\u00e9`, `\ud83d\ude00`, "é", "😀", ""}
 	body := []byte("abcdefghijklmnopqrstuvwxyzABCDEFGHIJKLMNOPQRSTUVWXYZ0123456789abcdefghijklmnopqrstuvwxyz")
 	w.Note("string documents: 9 escape kinds at every position of every string length <= 70, as value and as key")
 	for l := 0; l <= 70; l++ {
